@@ -942,6 +942,29 @@ func stageHeaders(sink *hx.Sink) {
 					reqs = append(reqs, q)
 				}
 			}
+			// every body in every delivery form
+			for _, dl := range []string{"unknown", "larger", "smaller", "eofdata", "bytewise"} {
+				for _, p := range []string{"/a", "/new", "/b/a", "/zz/new"} {
+					for _, body := range []string{"", "z", strings.Repeat("w", 40000)} {
+						q := davx.NewReq("PUT", p)
+						q.Body, q.Delivery = body, dl
+						reqs = append(reqs, q)
+					}
+					for _, pf := range []string{"none", "allprop", "propname", "empty", "bad", "junk"} {
+						q := davx.NewReq("PROPFIND", p)
+						q.PfBody, q.Delivery, q.Depth = pf, dl, "1"
+						reqs = append(reqs, q)
+					}
+					for _, pf := range []string{"none", "pupdate", "bad", "junk", "pupdate-noct"} {
+						q := davx.NewReq("PROPPATCH", p)
+						q.PfBody, q.Delivery = pf, dl
+						reqs = append(reqs, q)
+					}
+					q := davx.NewReq("MKCOL", p)
+					q.Delivery = dl
+					reqs = append(reqs, q)
+				}
+			}
 			jobs <- job{tree: davx.Dir("root", t), reqs: reqs}
 		}
 		close(jobs)
